@@ -222,7 +222,16 @@ def find_loops(fn, slicer):
             v = slicer.place(fn, rp)
             coll = v
         exits = [s for b in body for s in fn.succs(b) if s not in body]
-        loops.append(Loop(fn, h, c, body, latches, exits, coll))
+        lp = Loop(fn, h, c, body, latches, exits, coll)
+        # the exhaustion edge: `next()` returned None
+        lp.exhaust = None
+        tb = c.target
+        if tb is not None and fn.blocks[tb]['t']['t'] == 'switch':
+            t = fn.blocks[tb]['t']
+            none_t = [b for v, b in t['targets'] if v == 0]
+            if none_t and none_t[0] not in body:
+                lp.exhaust = (tb, none_t[0])
+        loops.append(lp)
     return loops
 
 
@@ -277,8 +286,13 @@ class Effects:
         # program order: the dominators of a block form a chain, so dominating calls are ordered by depth; the calls
         # of a loop body take the place of the loop header in that chain (before anything after the loop)
         key = {id(c): (len(dom.get(c.bb, ())), 0, 0) for c, _ in res}
+        from .guards import edge_dominates
         for L in self.loops(fn):
             if L.header in common and not any(b in L.body for b in site_bbs):
+                # FORALL only if the site is reached through the loop running to exhaustion: an early `return Ok(..)` /
+                # `break` out of the body reaches its site with some elements unvisited
+                if getattr(L, 'exhaust', None) is None or not all(edge_dominates(fn, L.exhaust[0], L.exhaust[1], b) for b in site_bbs):
+                    continue
                 for c in fn.calls:
                     if c.bb in L.body and c.bb != L.header and all(fn.dominates(c.bb, l) or c.bb == l for l in L.latches):
                         res.append((c, L.collection))
